@@ -9,7 +9,9 @@
     header lines as sent (names in any casing, any number of lines per name).
     The result is the request view used for matching and shown to the mechanisms
     and, for proxy mode, method and headers of the request sent to the upstream.
-    The decision itself (matched rule, pipeline outcome) is a function of the view.
+    That the decision itself (matched rule, pipeline outcome) depends on the request
+    only through the view is an ASSUMPTION (matching and mechanisms are not modelled
+    here, C02/C03/C04); the stream ties it in by its rule / pair / leaks comparison.
     The four functions are the net package, net/url: arbitrary, subject to [net_ok]
     (what the net package guarantees about its answers; re-checked on every case
     of the correspondence run).
@@ -45,7 +47,8 @@ Print Assumptions C09_trust_is_membership_configured.
 
 (** 2-safety: for a peer that is not listed, two requests that differ at most in header lines named
     (in any casing) like one of the seven — any values, any number of repetitions — produce the same
-    view, hence the same decision, and the same upstream request *)
+    view - hence the same decision, provided the decision depends on the view only (assumption) - and the
+    same upstream request *)
 Theorem C09_untrusted_noninterference : forall parse_uri parse_ip parse_cidr split_host_port,
   net_ok parse_ip parse_cidr split_host_port ->
   forall m cfg r raw raw',
@@ -127,7 +130,9 @@ Print Assumptions C09_trusted_exactly_its_component.
 
 (** histories: one instance of a service serves a sequence of requests.  What the i-th request gets is what it
     would get alone - nothing an earlier request (of a listed peer, of a peer whose address is written with the
-    same leading text, ...) did can change it *)
+    same leading text, ...) did can change it: IN THE MODEL, BY CONSTRUCTION ([run_instance = map handle]; a
+    corollary, not new content).  That instances of the real middleware ARE stateless is what the history
+    stream checks, not what Coq proves. *)
 Theorem C09_history_pointwise : forall parse_uri parse_ip parse_cidr split_host_port m cfg reqs i r raw,
   nth_error reqs i = Some (r, raw) ->
   nth_error (run_instance parse_uri parse_ip parse_cidr split_host_port true m cfg reqs) i =
@@ -152,8 +157,9 @@ Theorem C09_history_untrusted : forall parse_uri parse_ip parse_cidr split_host_
 Proof. exact history_untrusted. Qed.
 Print Assumptions C09_history_untrusted.
 
-(** whoever the peer is: at the upstream the seven names carry what heimdall composed from the request
-    the middleware left, and nothing else; X-Forwarded-Method/-Uri/-Path never arrive *)
+(** supporting lemma about the model's upstream step, for an arbitrary header list [h] the middleware left
+    (not stated on [handle]): clearing removes every received value of the seven names, so at the upstream they
+    carry what heimdall composed and nothing else; X-Forwarded-Method/-Uri/-Path never arrive *)
 Theorem C09_upstream_forwarding_is_composed : forall c h k,
   is_forwarded_name k = true ->
   values k (upstream_headers c h) = values k (composed_forwarding c h).
@@ -177,7 +183,8 @@ Theorem C09_F1_pinned_refuted :
 Proof. exact F1_refuted. Qed.
 Print Assumptions C09_F1_pinned_refuted.
 
-(** ... so that its forwarded headers changed the view; the repaired loader ignores them on the same input *)
+(** ... so that its forwarded headers changed the view; the repaired loader ignores them on the same input.
+    Stated at the parse-result level ([serve], with [parse_uri := fun _ => None]); there is no [handle]-level twin. *)
 Theorem C09_F1_pinned_noninterference_refuted :
   exists es peer c h h',
     Forall wf_entry es /\ wf_ip peer /\ ~ listed es peer /\ guard_F1 es peer = true /\
